@@ -211,6 +211,31 @@ Definition Truncate (incl : bool) (tp : tparams) (st : list part) : list slot * 
   let '(infos, sl') := glob incl (tp_dry tp) (tp_maxdb tp) sorted (sum_asize sorted) sl in
   (sl', imm ++ filter (fun ti => negb (i_asize ti =? i_bsize ti)) infos).
 
+(* ---- the time range of a chunk after a start without the time index's snapshot ---------------
+   cindex.lightFill (SyncChunks on a chunk the index knows nothing about: the start after a crash, cindex/cindex.dat
+   is written by a clean shutdown only): MinTs := timestamp of the first record, MaxTs := timestamp of the last one;
+   if the last is older than the first (fresh data followed by late data) the two are exchanged. [both] = true is the
+   code (`c.MinTs = ts2; c.MaxTs = ts1`); false = only the lower end is corrected (MaxTs stays the last record's).
+   An empty chunk keeps 0, 0. *)
+Definition code_lightfill_swaps_both : bool := true.
+Definition light_hull (both : bool) (ts : list Z) : Z * Z :=
+  match ts with
+  | [] => (0, 0)%Z
+  | t1 :: _ =>
+      let t2 := last ts t1 in
+      if (t2 <? t1)%Z then (t2, if both then t1 else t2) else (t1, t2)
+  end.
+(* the chunk as TRUNCATE sees it after such a start *)
+Definition light_chunk (both : bool) (c : chunk) : chunk :=
+  mkChunk (c_id c) (c_size c) (c_recs c) (fst (light_hull both (c_ts c))) (snd (light_hull both (c_ts c))) (c_ts c).
+Definition light_part (both : bool) (p : part) : part := set_chunks p (map (light_chunk both) (p_chunks p)).
+(* the newest record of the chunk is its first or its last one (what lightFill can see) *)
+Definition ends_hold_max (ts : list Z) : Prop :=
+  match ts with
+  | [] => True
+  | t1 :: _ => forall t, In t ts -> (t <= Z.max t1 (last ts t1))%Z
+  end.
+
 (* ---- the statement as cmdTruncate runs it ------------------------------------------------------
    Service.Truncate hands the source condition to tindex.Visit, which first compiles it
    (lql.BuildTagsExpFuncBySource). A condition the parser accepts and the builder refuses (malformed LIKE
